@@ -91,6 +91,34 @@ def check(run):
         run.count("only_a_teardown_fails_runs")
         for sig, text in runoracle.c02_oracle(c, r):
             run.violation(sig, text, {"case": c, "outcome": r.get("outcome")})
+    # directed family: a test aborts its suite (or every test) while ANOTHER test of the suite, on another worker, is still inside its
+    # (clean) setup: that other test has begun; it runs to its end and its verdict is what happened in it
+    acases = []
+    for k in range(16 if run.tier == "quick" else 300):
+        hooks = dict(nohooks)
+        hooks["setup_test"] = [["mark", 30 + i] for i in range(run.rng.randint(2, 6))]
+        if run.rng.random() < 0.5:
+            hooks["teardown_test"] = [["mark", 50]]
+        aborts = tst("t7", 0, [["mark", i] for i in range(run.rng.randint(0, 3))] +
+                     [["raise", run.rng.choice(["AbortSuite", "AbortAllTests"])]])
+        others = [tst("t%d" % (8 + i), 1 + i, [["mark", 10 + i], run.rng.choice([["log", 3, 3 + i], ["check", False, 3 + i], ["log", 1, 3 + i]]),
+                                               ["mark", 20 + i]]) for i in range(run.rng.randint(1, 2))]
+        acases.append({"id": "va%d" % k, "project": {"fixtures": [], "suites": [
+            {"name": "s6", "disabled": False, "rank": 0, "hooks": hooks, "injected": [], "tests": [aborts] + others, "subs": []}]},
+            "sched": projgen.gen_sched(run.rng, run.rng.choice(["random", "bursts", "last"])),
+            "options": {"nb_threads": run.rng.choice([2, 3]), "stop_on_failure": False, "force_disabled": False}})
+    ares = engine.cosim(run, acases)
+    for c in acases:
+        r = ares.get(c["id"]) or {"outcome": ["hang", "no result"]}
+        run.evaluations += 1
+        run.count("abort_while_another_test_is_in_its_setup_runs")
+        rep = r.get("report")
+        if rep:
+            res = runoracle._results_of_report(rep)
+            if sum(1 for key, x in res.items() if key[0] == "test" and x["status"] in ("passed", "failed")) >= 2:
+                run.count("aborted_suites_with_a_second_test_that_had_begun")
+        for sig, text in runoracle.c02_oracle(c, r):
+            run.violation(sig, text, {"case": c, "outcome": r.get("outcome")})
     # skipped although nothing failed: quiet projects interrupted by Ctrl-C at a random step of the main loop; only the success
     # flags are judged (in-flight code is outside the fragment of layer 3: layers 1 and 2 only)
     quiet = dict(PROFILE, p_fail=0.0, p_spawn=0.0)
